@@ -40,7 +40,7 @@ CLAIMS["C02"] = ("def-use flow of the wire fields in DiameterAVP.load, identity-
  "Every wire field not determined by the dispatch key must flow into the decoded object; all 11 type constructors and all 207 AVP "
  "constructors (incl. parser_data/encode overrides) keep a bytes argument unchanged on every path; the splitter builds and appends "
  "exactly one message per iteration from the slices named by the parsed header with loaded=True; registry writer and reader agree on "
- "[vendor][code]; every dictionary class is a direct subclass. Necessary conditions; byte equality of re-serialisation per input is "
+ "[vendor][code]; every dictionary class is a direct subclass; nothing on the decode path (new helpers included) writes class-level, global or module-object state. Necessary conditions; byte equality of re-serialisation per input is "
  "not decided. The dropped wire flags are a listed known finding.", "DESIGN.md section 4, C02")
 CLAIMS["C12"] = ("path enumeration of decorate_answer as decision tables over the verified family predicates, the E bit and has_avp atoms; CFG must-pass checks",
  "For every combination of the three failure-family predicates (themselves interval-verified under C17), the E bit and the presence "
@@ -57,7 +57,7 @@ CLAIMS["C13"] = ("registry writer/reader table check + path enumeration of callb
 CLAIMS["C14"] = ("path enumeration of Bromelia.send_message (call-order rule), registry key table checks, CFG must-pass of the notify/wait rendezvous",
  "On every path on which a request is published and awaited, the waiter is registered before the hand-over to the worker; insert, "
  "lookup, membership and removal key the registry by the same header field; the dispatch side replaces the waiter's message before "
- "notifying and removes after; notify() sets on every path the very event wait() blocks on, and wait() releases the notifier. These "
+ "notifying and removes after; notify() sets on every path the very event wait() blocks on, and wait() releases the notifier. the waiter inserted and awaited is a PendingAnswer constructed for that request on that path (never a pooled or shared object); an answer is dropped only after the registry reported no waiter for it. These "
  "are necessary conditions for 'always wakes / own answer'; the interleaving quantifier itself is not decided.", "DESIGN.md section 4, C14")
 CLAIMS["C15"] = ("path enumeration of the draw loops (test-and-insert on every return), who-may-write/call rules, lockset dataflow on the CFG",
  "For any random source: every returned identifier passed a non-membership test in, and was inserted into, its own process-wide "
@@ -86,10 +86,13 @@ CLAIMS["C07"] = ("CFG must-define of both identifiers in create_answer, command/
 CLAIMS["C11"] = ("effect classification of every list-mutating method + CFG must-pass pairing rules, SSA-name alias rule, equality-vs-identity rule, abstract evaluation of the length arithmetic",
  "Every method of DiameterMessage and GroupedType that mutates `_avps` pairs the mutation, on all paths, with the matching name-map "
  "update and a length/`_data` update (or a re-deriving call); both views receive the same object; no ==-based list operation is used "
- "on AVPs (DiameterAVP.__eq__ compares encodings); pop/cleanup subtract what append added; bulk data updates end with refresh(). "
+ "on AVPs (DiameterAVP.__eq__ compares encodings); pop/cleanup subtract what append added; bulk data updates end with refresh(); "
+ "cleanup's key filter selects every name shape append itself creates; an instance attribute the confirmed tree does not have is "
+ "updated by every mutator of the state it mirrors; DiameterAVP.length never returns a stored value. "
  "Freshness of the `__N` name suffix across histories is not decided.", "DESIGN.md section 4, C11")
 CLAIMS["C03"] = ("lower-bound dataflow for decoder loop progress, escape-set fixpoint over the resolved call graph with an explicit may-raise/hazard model and exception-type-aware CFG edges, lockset dataflow for acquire/release pairing on all exits",
- "Both decoder loops advance by an amount with a proven lower bound >= 1 on every path; the escape sets of DiameterHeader.load / "
+ "Both decoder loops - and every other index-driven scan loop over a byte stream on the receive path - advance by an amount with a "
+ "proven lower bound >= 1 on every path; the escape sets of DiameterHeader.load / "
  "DiameterAVP.load / DiameterMessage.load (closed over all 207 registry-dispatched constructors) contain only library error classes; "
  "the receive worker's handlers cover the decoder's escape set and no input-driven exception reaches the top of the three connection "
  "thread roots; every lock region of the code base releases its lock on every normal and exceptional exit. Necessary conditions; "
@@ -104,11 +107,12 @@ CLAIMS["C04"] = ("field-granular taint propagation from sock.recv to the decode 
  "Location-independent necessary structure of a fragment-tolerant receive path: a persistent buffer between recv and the decoder is "
  "partially consumed (carry-over), a comparison of buffered length with the decoded Message Length governs what is decoded, receive "
  "buffers are only appended / transferred / partially consumed, every read-modify-write of the shared buffer and its availability "
- "event holds a common lock, each hop hands a message over exactly once through a FIFO with a single producer site. The "
+ "event holds a common lock, each hop hands a message over exactly once through a FIFO with a single producer site; on terms, the "
+ "decoder gets X[:B] and the transport keeps X[B:] of the WHOLE buffered stream X with B measured on X. The "
  "segmentation x interleaving quantifier itself is not decided.", "DESIGN.md section 4, C04")
 CLAIMS["C05"] = ("buffer-conservation and partial-write rules with sibling comparison, must-clear (consume-once) summaries over the call graph, dominator check of the mask downgrade, path enumeration of the send path, lockset dataflow",
  "Both _write implementations drop exactly the sent prefix; outbound buffers are only appended / transferred / trimmed; the selector "
  "mailbox must be cleared before the next select(); every downgrade to read-only is dominated by 'nothing pending'; accepted messages "
  "are put once, serialised once, never re-enqueued, and the stream reaches the transport hand-off; mask changes and queue operations "
- "hold their locks. Three genuine defects of the hand-off design are listed known findings (5 obligations). Interleavings are not "
+ "hold their locks (every write of the events mask and the mode events inside the region of TcpConnection.lock; every function that attaches a stream does so under `not is_write_mode()`); no iteration both serialises and re-enqueues a message. Three genuine defects of the hand-off design are listed known findings (5 obligations). Interleavings are not "
  "decided.", "DESIGN.md section 4, C05")
